@@ -1,7 +1,7 @@
 """Generators G1-G4: read /repo's current working tree (through the compiler / the hooked build) and
 rewrite lean/DispatchVerif/Generated/*.lean. The Lean models and property theorems import these files,
 so they are re-checked against what the code says now."""
-import os, subprocess
+import os, re, subprocess
 from common import VERIF, REPO, LEAN, SCRATCH, build, compile_flags, sh, write_if_changed, BuildError, Lock, VARIANTS
 
 GEN = os.path.join(VERIF, "gen")
@@ -49,8 +49,15 @@ def run_generators():
                 "    One entry per distinct (file, function, primitive, memory order, location expression) among the",
                 "    os_atomic_* expansions compiled into the library. -/", "namespace Gen",
                 "structure Site where", "  file : String", "  func : String", "  op : String", "  order : String", "  expr : String",
+                "  loc : String    -- the field the location expression names (last `->field` / `.field`, else last identifier)",
                 "deriving DecidableEq, Repr", "", "def sites : List Site := ["]
-        body += ["  ⟨%s, %s, %s, %s, %s⟩," % tuple(_lean_str(x) for x in row) for row in sorted(rows)]
+        def _loc(expr):
+            m = re.findall(r"(?:->|\.)\s*([A-Za-z_]\w*)", expr)
+            if m:
+                return m[-1]
+            m = re.findall(r"[A-Za-z_]\w*", expr)
+            return m[-1] if m else ""
+        body += ["  ⟨%s, %s, %s, %s, %s, %s⟩," % tuple(_lean_str(x) for x in row + (_loc(row[4]),)) for row in sorted(rows)]
         body[-1] = body[-1].rstrip(",")
         body += ["]", "end Gen", ""]
         changed["Sites"] = write_if_changed(os.path.join(GENERATED, "Sites.lean"), "\n".join(body))
